@@ -369,8 +369,8 @@ func (h *Session) arpRequest(dst net.HardwareAddr, sender Addr, target Addr) (er
 	arp := ether.Payload()
 	binary.BigEndian.PutUint16(arp[0:2], 1)                // Hardware Type - Ethernet is 1
 	binary.BigEndian.PutUint16(arp[2:4], syscall.ETH_P_IP) // Protocol type - IPv4 0x0800
-	b[4] = 6                                               // mac len - fixed
-	b[5] = 4                                               // ipv4 len - fixed
+	arp[4] = 6                                             // mac len - fixed
+	arp[5] = 4                                             // ipv4 len - fixed
 	binary.BigEndian.PutUint16(arp[6:8], 0x01)             // operation - 1 request, 2 reply
 	copy(arp[8:8+6], sender.MAC[:6])
 	copy(arp[14:14+4], sender.IP.AsSlice())
